@@ -178,7 +178,9 @@ Inductive nevent :=
 | EGet (r key : nat)
 | EPutS (w key : nat)          (* announce_signed_peer *)
 | EGetS (r key : nat)          (* get_signed_peers *)
-| EPutGet (r key : nat).       (* a put of the key and, in the same instant, a get of it on the same node: the get joins the put's lookup *)
+| EPutGet (r key : nat)        (* a put of the key and, in the same instant, a get of it on the same node: the get joins the put's lookup *)
+| EGetJoin (r key : nat).      (* find_node(target of the key) and, in the same instant, a get of the key on the same node:
+                                  the get joins the find_node lookup (lookups are keyed by target alone) and receives nothing *)
 
 Definition nstep (nt : net) (e : nevent) : net :=
   match e with
@@ -191,4 +193,14 @@ Definition nstep (nt : net) (e : nevent) : net :=
   | EPutS w k => if n_alive (get nt w) then fst (put_s nt w k) else nt
   | EGetS r k => if n_alive (get nt r) then lookup_s nt r k else nt
   | EPutGet r k => if n_alive (get nt r) then fst (put nt r k) else nt
+  | EGetJoin r k =>
+      if n_alive (get nt r)
+      then (* a listed server also asks itself: under the foreign target id its own request makes it enter itself *)
+           let self := match self_visit nt r true None with [] => false | _ => true end in
+           upd (lookup nt r true None) r
+               (fun nd => let nd' := set_cache nd (filter (fun e => negb (Nat.eqb (fst e) k)) (n_cache nd)) in
+                          if self then set_tables nd' (match n_boots nd' with [] => add1 r (n_main nd') | _ => n_main nd' end)
+                                                      (add1 r (n_signed nd'))
+                          else nd')
+      else nt
   end.
